@@ -192,10 +192,13 @@ func run(e *core.Env) {
 	node.NewStderr()
 	w := &world{e: e, tp: tp, cn: simnet.NewConnNet(e)}
 	perm := tp.Perm(10)
+	// V has a stub tun device in half of the runs, so that authenticated
+	// traffic reaches the inner-packet checks instead of the rejected path.
+	vTun := tp.Chance(1, 2)
 	mk := func(name string, i int) *linkpair.Stack {
 		id := ident.Get(ident.Routable, perm[i])
 		st := node.BaseStore(id)
-		return linkpair.NewStack(e, name, id, st, true)
+		return linkpair.NewStackTun(e, name, id, st, true, name == "V" && vTun)
 	}
 	w.V, w.M, w.H = mk("V", 0), mk("M", 1), mk("H", 2)
 	V, M, H := w.V.Node, w.M.Node, w.H.Node
@@ -480,6 +483,60 @@ func run(e *core.Env) {
 					f.SetTTL(0)
 					f.SetSequenceTime(time.Now().Add(time.Duration(tp.Intn(2000)-1000) * time.Millisecond))
 					_ = f.SignRaw(src.PrivateKey)
+				}
+				// A properly signed announcement with a long, validly signed hop
+				// chain whose labels need more than a switch block can hold.
+				if tp.Chance(1, 10) && !firstContact {
+					f.ReturnToPool()
+					amsg := router.AnnouncePingMsg{Info: &m.RouterInfo{Version: "x"}, ReturnLabel: m.SwitchLabel(tp.Intn(65536)), Expires: time.Now().Add(time.Hour)}
+					inner, _ := cbor.Marshal(&amsg)
+					hdr := router.PingHeader{PingID: uint64(tp.Uint32()) + 1, PingType: "announce", AddrHash: unknown.Hash, KeyType: unknown.Type, PublicKey: unknown.PublicKey}
+					hd, _ := cbor.Marshal(&hdr)
+					abody := append([]byte{1, byte(len(hd))}, append(hd, inner...)...)
+					af, aerr := M.Inst.Builder.NewFrameV1(unknown.IP, m.RouterAddress, frame.RouterHopPingDeprecated, nil, abody, nil)
+					if aerr != nil {
+						continue
+					}
+					af.SetTTL(0)
+					af.SetSequenceTime(time.Now().Round(time.Millisecond).Add(time.Duration(k) * time.Millisecond))
+					_ = af.SignRaw(unknown.PrivateKey)
+					ctx := make([]byte, 88)
+					copy(ctx[:16], unknown.IP.AsSlice())
+					m.PutUint64(ctx[16:24], uint64(af.SequenceTime().UnixMilli()))
+					copy(ctx[24:], af.AuthData())
+					depth := []int{2, 30, 60, 90, 98}[tp.Intn(5)]
+					big := tp.Chance(2, 3)
+					var nested []byte
+					for i := 0; i < depth; i++ {
+						signer := ident.Get(ident.Routable, 40+i)
+						if i == depth-1 {
+							signer = M.ID
+						}
+						lab := func() m.SwitchLabel {
+							if big {
+								return m.SwitchLabel(16384 + tp.Intn(40000))
+							}
+							return m.SwitchLabel(1 + tp.Intn(127))
+						}
+						at := router.AnnouncePingAttachment{Router: signer.PublicAddress, Delay: uint16(tp.Intn(50)), ForwardLabel: lab(), ReturnLabel: lab(), NextAttachment: nested}
+						data, _ := cbor.Marshal(at)
+						sig, _ := signer.SignWithContext(data, ctx)
+						nested = append(data, sig...)
+					}
+					if len(nested) > 10000 {
+						af.ReturnToPool()
+						continue
+					}
+					if err := af.SetAppendixData(nested); err != nil {
+						af.ReturnToPool()
+						continue
+					}
+					af.SetTTL(30)
+					w.what = fmt.Sprintf("validly signed announcement from M with %d hop records, big labels=%v", depth, big)
+					e.Probe("valid_long_announce_chain")
+					sendFromM(af)
+					w.panics()
+					continue
 				}
 				f.SetTTL([]uint8{32, 1, 0, 2, 255}[tp.Intn(5)])
 				if tp.Chance(1, 10) {
